@@ -24,7 +24,7 @@ CLAIMED["C01"] = (
     "DESIGN.md §5 C01",
     "Every glyph of every packed trie font is a checked state: all component chains of depth <= 3 over a 9 "
     "(quick) / 14 (thorough) transform palette under 7 base shapes in 3 variants, every single and pair of "
-    "coordinate deviations from a 12-value palette, and a width palette, x both UFO libraries x roundTolerance "
+    "coordinate deviations from a 12-value palette, and a width palette (incl. widths in [-0.5, 0)), x both UFO libraries x roundTolerance "
     "{None,0,0.25,0.5} x cffVersion {1,2}; the reloaded CFF/CFF2 outline and hmtx advance must equal the "
     "independent resolver's result (exact ==, halves up).",
     "Trusted: fontTools CFF reader/charstring interpreter; mc/outline_ref.py. Dyadic coordinates only; closed "
@@ -66,7 +66,7 @@ CLAIMED["C03"] = row("§5 C03 / §15",
     "exhaustive enumeration of glyph-order / code-point assignments; BFS over UVS entries; reference model comparison")
 CLAIMED["C06"] = row("§5 C06 / §15",
     "BFS over anchor assignments (23 (glyph, anchor-name) slots x 3 positions, depth 3/4, plus rich seed states "
-    "expanded by one or two ops, incl. two-digit ligature components) x 12 environment switches; every ordered glyph pair and every ligature component is "
+    "expanded by one or two ops, incl. two-digit ligature components, a base-class glyph with an attaching anchor and an Indic ligature with numbered nukta anchors) x 12 environment switches; every ordered glyph pair and every ligature component is "
     "evaluated by the independent MarkBase/MarkLig/MarkMark interpreter in every state and compared with the "
     "source anchors; anchor insertion order is re-validated (confluence).",
     "Trusted: mc/otl_ref.py (selftested). Contextual anchors and > 4 interacting anchors are outside the bound.",
@@ -82,7 +82,7 @@ CLAIMED["C08"] = row("§5 C08 / §3",
     "Trusted: CPython hashing model (only string-hash order is scheduled), SOURCE_DATE_EPOCH pinning.",
     "exhaustive schedule enumeration over hash-seed-induced set orders x call histories, differential digest oracle")
 CLAIMED["C11"] = row("§5 C11 / §15",
-    "BFS 'add glyph' over a 21-op (name, code point) alphabet to depth 3/4 x 8 public.postscriptNames maps x "
+    "BFS 'add glyph' over a 25-op (name, code point) alphabet (incl. ligatures repeating a component) to depth 3/4 x 8 public.postscriptNames maps x "
     "TTF/CFF/CFF2 x forward/reversed glyph order, the complete product of the naming switches (972 cases), "
     "variable fonts in thorough; per-table raw bytes with production names on vs off and an independent "
     "restatement of the naming rules.",
@@ -92,7 +92,7 @@ CLAIMED["C16"] = row("§5 C16 / §15",
     "All 1,114,112 code points (and all ordered pairs of the 283 dangerous ones) through the PostScript-name "
     "normaliser; deviation bounding (k <= 1 quick, k <= 2 thorough) over 92 fontinfo attributes x 176 menu values "
     "from three bases x TTF/OTF(/CFF2/defcon) with an independent fontinfo->table-field reference (mc/info_ref.py); "
-    "designspace public.fontInfo overrides through compileVariableTTF.",
+    "designspace public.fontInfo overrides through compileVariableTTF; typographic names elided only as a pair.",
     "Trusted: fontTools table readers, mc/info_ref.py (selftested). Strings > 2 characters and interactions of order "
     "> 2 are outside the bound.",
     "exhaustive code-point enumeration + deviation-bounded enumeration of fontinfo against an independent field map")
@@ -113,14 +113,14 @@ CLAIMED["C18"] = row("§5 C18 / §15",
     "Trusted: fontTools GDEF/GPOS readers.",
     "exhaustive enumeration of category maps / cursive assignments, BFS over caret anchors, reference comparison")
 CLAIMED["C19"] = row("§5 C19 / §15",
-    "190-210 designspace setups (incl. families where one complete master has no kerning) (5 topologies x axis map x rounding x rule sets x scribble mode) x call histories of "
+    "220-240 designspace setups (incl. families where one complete master has no kerning, a slnt-registered axis / explicit OS/2 classes, an earlier instantiator over the reversed source order) (5 topologies x axis map x rounding x rule sets x scribble mode) x call histories of "
     "<= 3/4 generate_instance / replace_source_layers / swap requests on ONE instantiator at every grid location; "
     "results compared with the master data or an independent closed-form blend (mc/var_ref.py), with a fresh "
     "instantiator (history independence), and sources with their snapshots (frame).",
     "Trusted: fontTools VariationModel only for sparse/intermediate mixes, mc/var_ref.py (selftested), mc/snapshot.py.",
     "explicit-state exploration of call histories on live objects with differential and frame oracles")
 CLAIMED["C20"] = row("§5 C20 / §15",
-    "Complete product: 5 repertoire mixes x 2 kerning kinds x 3 anchor kinds x all 32 subsets of a 5-statement "
+    "Complete product: 5 repertoire mixes (+5 with Lao / N'Ko / Kana and named language systems) x 2 kerning kinds x 3 anchor kinds x all 32 subsets of a 5-statement "
     "languagesystem menu x 3 user-feature shapes x TTF/OTF, ordered statement scenarios, reused "
     "writers, writer configurations (UFO lib key with append mode / another order / other options, the legacy kern "
     "writer, the featureWriters argument in another order) and two-master variable fonts with variable features; every script and language system of the "
@@ -176,7 +176,7 @@ CLAIMED["C13"] = row("§5 C13 / §15",
 
 CLAIMED["C14"] = row("§5 C14 / §15",
     "31 filter configurations (every shipped filter and I-variant incl. degenerate options) x 132 include/exclude/"
-    "predicate specifications x three sibling fonts; every history of <= 2 (quick) / 3 (thorough) invocations of ONE "
+    "predicate specifications x three sibling fonts (a fourth, already exploded one for the colour-layer filter); every history of <= 2 (quick) / 3 (thorough) invocations of ONE "
     "filter object; four oracle clauses: untouched glyphs snapshot-equal, every changed/added/removed glyph reported, "
     "source font frame, history independence against a fresh filter object (also on the SAME font object with "
     "another glyph set; master-order independence of I-filters).",
